@@ -105,6 +105,9 @@ def _worker(args):
         rnd = random.Random(seed * 1000003 + gi)
         labels_seen = set()
         for pi, pr in enumerate(paths):
+            if len(res['violations']) >= 6:
+                res['notes'].append('stopped after 6 reproduced violations in this group (remaining paths not examined)')
+                break
             if pr.exc is not None:
                 kind, msg, tb = pr.exc
                 if kind == 'Escape':
